@@ -82,6 +82,11 @@ def parse_model(*, model: Type[T], obj: Any) -> T:
             f"1 validation errors for {model.__name__}\n"
             f"The {model.__name__} is nested too deeply, or a part of it contains itself."
         )
+    except (TypeError, OverflowError) as exc:
+        # pydantic lets a few inputs through as other exceptions: a key that collides with the
+        # '__pydantic_self__' parameter of its own constructor (TypeError), an integer that is
+        # too large for a float field (OverflowError). They are validation errors like any other.
+        raise DecodeValidationError(f"1 validation errors for {model.__name__}\n{exc}")
 
 
 def document_string_to_object(*, document: str, document_type: DocumentType) -> dict[str, Any]:
